@@ -80,6 +80,13 @@ var c04Carriers = []carrier{
 	{"aria-fallback-class", "A", func(s string) string {
 		return "<span class=\"mwe-math-fallback-image-inline\" aria-hidden=\"true\">" + s + "</span>"
 	}},
+	// hidden formatting elements inside a javascript: anchor (which the converter flattens to text)
+	{"js-anchor-hidden-span", "A", func(s string) string {
+		return "<a href=\"javascript:void(0)\">jsvisible <span hidden>" + s + "</span></a>"
+	}},
+	{"js-anchor-dn-b", "A", func(s string) string {
+		return "<a href=\"javascript:void(0)\"><b style=\"display:none\">" + s + "</b> jsvisible</a>"
+	}},
 	{"aria-fallback-div", "A", func(s string) string {
 		return "<div class=\"fallback-image\" aria-hidden=\"true\"><p>" + s + "</p></div>"
 	}},
@@ -405,7 +412,7 @@ func init() {
 		ID:        "C04",
 		DesignRef: "§5 C04",
 		Rule: "fixed host skeleton (article with paragraph, list, layout table, data table, three figures, twitter embed) with 14 slots {top, between paragraphs, inside paragraph, li, layout cell, data cell, caption, caption with link, directly in figure, twitter embed, head, a caption holding only the carriers, inside picture, inside video}; " +
-			"every multiset of <= 2 (quick) / <= 3 (thorough) (carrier, slot) placements over 43 carriers (26 hidden/non-rendered incl. hidden elements that also carry a style shared with a visible control, 10 non-reading, 4 visible controls, 2 observe-only CSS spellings), each holding a unique secret token; every single placement is also distilled from bytes through ApplyForReader. " +
+			"every multiset of <= 2 (quick) / <= 3 (thorough) (carrier, slot) placements over 47 carriers (30 hidden/non-rendered, among them hidden formatting elements inside a javascript: anchor and aria-hidden text under a fallback-image class, incl. hidden elements that also carry a style shared with a visible control, 10 non-reading, 4 visible controls, 2 observe-only CSS spellings), each holding a unique secret token; every single placement is also distilled from bytes through ApplyForReader. " +
 			"Oracle: secrets whose holder (judged on the parsed tree) is script/style/head/comment/hidden never occur in Text nor in result.Node outside embed placeholders; secrets in form controls/noscript/svg/object/applet/unrecognised iframe never occur unless nested in a retained data table or figure. Non-trivial = >= 1 secret and >= 100 words retained.",
 		Enumerate: c04Enumerate,
 		Check:     c04Check,
